@@ -40,6 +40,10 @@ var (
 
 func processInit() {
 	initOnce.Do(func() {
+		// drain the default logger (its goroutine was started at package initialisation and touches an
+		// instrumented pool) before any simulated run starts, then silence it for good
+		erpc.FlushLogger()
+		time.Sleep(20 * time.Millisecond)
 		erpc.SetLoggerOutputter(nopOutputter{})
 		erpc.SetLoggerLevel("OFF")
 		erpc.VerifSetSpawn(func(fn func()) bool {
@@ -254,4 +258,18 @@ func (e *Env) Until(cond func() bool) {
 		}
 		simrt.Sleep(50 * time.Microsecond)
 	}
+}
+
+// CheckSettled must be called right after simrt.WaitQuiescent: every task that is still parked must be
+// waiting for network input (session readers, accept loops).  Anything else - a task parked on a mutex, a
+// wait-group, a map - is stuck for good, because nothing in the system can run any more.
+func (e *Env) CheckSettled(class string) {
+	parked, native := e.Sched.Snapshot()
+	for _, p := range parked {
+		if strings.Contains(p, "@netread") || strings.Contains(p, "@accept") || strings.Contains(p, "@user") || strings.Contains(p, "@waitchan") {
+			continue
+		}
+		e.Fail(class, "task parked forever at quiescence: %s", p)
+	}
+	_ = native
 }
